@@ -228,10 +228,11 @@ def run(ctx):
     ctx.section("replay", behaviours=len(behs), modes=MODES, direct_tol=DIRECT_TOL, krylov_tol=KRYLOV_TOL)
     orphan_under_schemes(ctx)
     # Newton-incremental driver (spec/Newton.tla) and multi-point connections of beam structures (spec/Connections.tla)
-    from harness.props import newton_replay, connections_replay
+    from harness.props import newton_replay, connections_replay, solver_options_replay
 
     newton_replay.newton_driver(ctx)
     connections_replay.connections(ctx)
+    solver_options_replay.solver_options(ctx)
     for i in (0, len(behs) // 2):
         if behs:
             ctx.sample({"sys": behs[i]["sys"], "steps": behs[i]["steps"], "x": behs[i]["x"]})
